@@ -147,3 +147,58 @@ func VerifC05_MuxThorough() { vC05Mux(3, true) }
 // larger configurations, explored delay-bounded (see check spec)
 func VerifC05_Mux4() { vC05Mux(4, true) }
 func VerifC05_Mux5() { vC05Mux(5, true) }
+
+// (c) a failed write in the middle: X's write is blocked and then fails while Y
+// is queued behind it; Y goes out and stays unanswered; two further calls are
+// issued.  Tags of the requests awaiting a reply stay pairwise distinct and
+// every call gets the reply to its own request.
+func VerifC05_FailedWrite() {
+	ch := newVPeerChannel()
+	ch.werrs = make(chan error)
+	ctx, cancel := context.WithCancel(vBG)
+	defer cancel()
+	t := newTransport(ctx, ch)
+	type res struct {
+		msg Message
+		err error
+	}
+	results := make([]chan res, 4)
+	call := func(i int) {
+		results[i] = make(chan res, 1)
+		go func() {
+			m, err := t.send(vBG, MessageTwrite{Fid: Fid(i)})
+			results[i] <- res{m, err}
+		}()
+	}
+	call(0) // X: tagged, its write blocks (the peer is not reading yet)
+	vDrain()
+	call(1) // Y: tagged, queued behind X
+	vDrain()
+	ch.werrs <- errVMock // X's write fails
+	r := <-results[0]
+	vAssert(r.err != nil, "C05: a call whose request cannot be written returns that error")
+	tags := map[int]Tag{}
+	recv := func() {
+		req := <-ch.toPeer
+		i := int(req.Message.(MessageTwrite).Fid)
+		vAssert(req.Tag != NOTAG, "C05: a request never carries the reserved no-tag value")
+		for j, tg := range tags {
+			vAssert(tg != req.Tag || j == i, "C05: tags of requests still awaiting a reply are pairwise distinct")
+		}
+		tags[i] = req.Tag
+	}
+	recv() // Y, left unanswered for now
+	call(2)
+	recv()
+	call(3)
+	recv()
+	// answer in an explored order
+	order := [][]int{{3, 2, 1}, {1, 2, 3}, {2, 3, 1}}[ndChoice("order", 3)]
+	for _, i := range order {
+		ch.fromPeer <- &Fcall{Type: Rwrite, Tag: tags[i], Message: MessageRwrite{Count: uint32(100 + i)}}
+		r := <-results[i] // a call that never returns is reported as a deadlock
+		rw, ok := r.msg.(MessageRwrite)
+		vAssert(r.err == nil && ok && rw.Count == uint32(100+i), "C05: each call returns with the reply that carries the tag of its own request")
+	}
+	vReach("c05.failedwrite")
+}
